@@ -192,7 +192,7 @@ func (d *Descriptor) isValidJSONMapEntry() bool {
 func (d *Descriptor) readAsSlice(out Outputter, data []byte) (n int, err error) {
 	elt := &d.Elements[0]
 	switch elt.Type {
-	case FieldTypeFloat32, FieldTypeFloat64, FieldTypeInt, FieldTypeUint:
+	case FieldTypeFloat32, FieldTypeFloat64, FieldTypeInt, FieldTypeUint, FieldTypeFlatInt, FieldTypeBool:
 		// If data is generated by protobuf this could be an element of a slice.
 		// We won't support that for now. So this is either a float64 or float32
 		offset := 0
@@ -205,7 +205,7 @@ func (d *Descriptor) readAsSlice(out Outputter, data []byte) (n int, err error) 
 		}
 		return offset, nil
 
-	case FieldTypeStruct, FieldTypeSlice, FieldTypeString:
+	case FieldTypeStruct, FieldTypeSlice, FieldTypeString, FieldTypeTime:
 		count, n := plenccore.ReadVarUint(data)
 		if n < 0 || (n == 0 && len(data) != 0) || count > uint64(len(data)) {
 			return 0, fmt.Errorf("corrupt data looking for WTSlice count")
@@ -220,13 +220,12 @@ func (d *Descriptor) readAsSlice(out Outputter, data []byte) (n int, err error) 
 				return 0, fmt.Errorf("invalid varint for slice entry %d", i)
 			}
 			offset += n
-			if s == 0 {
-				continue
-			}
 			if s > uint64(len(data)-offset) {
 				return 0, fmt.Errorf("corrupt data reading slice entry %d", i)
 			}
 
+			// Note an empty entry is still an entry: an empty string, a struct
+			// of zero values, a map entry with a zero key and value
 			n, err := elt.read(out, data[offset:offset+int(s)])
 			if err != nil {
 				return 0, err
